@@ -188,11 +188,24 @@ def run_batch(arg):
             name = fm.full_text(alts[-1])
             expected_paths[c["id"]] = os.path.join(work, "t").encode() + (b"/%d-" % c["id"]) + name
     # path-template sinks are sampled by reading the expected file afterwards
+    # consecutive cases share one process in groups of 1..8: limits, formats and outputs change between calls of one process
+    sizes = [1, 2, 1, 3, 2, 5, 1, 4, 2, 8]
+    left = 0
+    group_of = {}
+    tag = None
     for c in batch:
-        s.fork(c["id"])
+        if left <= 0:
+            if tag is not None:
+                s.endfork()
+            tag = c["id"]
+            s.fork(tag)
+            left = sizes[c["id"] % len(sizes)]
+        group_of[c["id"]] = tag
         s.conf(conf_for(c, work, logf))
         s.raw("envset " + Script.vec([k + b"=" + v for k, v in c["env"].items()] or []))
         s.call(c["id"], "execve", c["path"] if c["path"] else b"", c["argv"], [b"E=1"], -1, 2)
+        left -= 1
+    if tag is not None:
         s.endfork()
     res = run_vdrive(bld, s.text(), work, timeout=600)
     if res.timeout:
@@ -203,7 +216,15 @@ def run_batch(arg):
     for c in batch:
         evs = byid.get(c["id"], [])
         real = [e for e in evs if e["ev"] == "REAL"]
-        child = [e for e in evs if e["ev"] == "CHILD"]
+        gchild = [e for e in byid.get(group_of[c["id"]], []) if e["ev"] == "CHILD"]
+        begun = [m for m in batch if group_of[m["id"]] == group_of[c["id"]] and any(e["ev"] == "BEGIN" for e in byid.get(m["id"], []))]
+        child = []
+        if gchild and gchild[0]["signal"]:
+            if begun and begun[-1]["id"] == c["id"]:
+                child = gchild          # this case was running when the process died
+            elif not any(e["ev"] == "BEGIN" for e in evs):
+                st["not_run"] = st.get("not_run", 0) + 1
+                continue
         wit = dict(case={k: (v if not isinstance(v, (bytes, dict, list)) else repr(v)[:600]) for k, v in c.items()})
         if child and child[0]["signal"]:
             st["crashed"] += 1
@@ -309,7 +330,7 @@ def main():
                 F.viol[k] = v
         for k, v in st.items():
             tot[k] = tot.get(k, 0) + v
-    if tot.get("records", 0) == 0 or tot.get("exact_fit", 0) == 0 or tot.get("overflow", 0) == 0 or tot.get("ident", 0) == 0:
+    if (tot.get("records", 0) == 0 or tot.get("exact_fit", 0) == 0 or tot.get("overflow", 0) == 0 or tot.get("ident", 0) == 0) and F.n_unlisted() == 0:
         raise Harness("monitor observed too little: %s" % tot)
     rc = F.report()
     distinct = len({(c["cls"], c["fmt"], c["ds"], c["lm"], repr(c["env"]), c["path"], repr(c["argv"])) for c in cases})
